@@ -525,6 +525,61 @@ def twin_lists_untouched(out, seed):
             out["fail"].append(("RecurrencePlot.twin_surrogates/object-unchanged", wit, f"raised {type(e).__name__}: {e}"))
 
 
+def caller_dicts_and_sources_untouched(out, seed):
+    """(a) The window dictionary a caller hands to Data / ClimateData (constructor and set_window) is the caller's: it has the
+    same keys and values afterwards (the equal-bounds shorthand stays the shorthand).  (b) Building a derived object - a
+    coupled climate network - from two ClimateData objects does not re-window or otherwise change those objects."""
+    from pyunicorn.core import Data, GeoGrid
+    from pyunicorn.climate import ClimateData
+    rng = np.random.RandomState(77 + seed)
+    T, N = 12, 5
+    grid = GeoGrid(time_seq=np.arange(T, dtype=float), lat_seq=np.linspace(-20., 20., N), lon_seq=np.linspace(10., 90., N), silence_level=3)
+    obs = rng.randn(T, N)
+    for label, win in (("all-degenerate", {"time_min": 0., "time_max": 0., "lat_min": 0., "lon_min": 0., "lat_max": 0., "lon_max": 0.}),
+                       ("time-degenerate", {"time_min": 3., "time_max": 3., "lat_min": -15., "lon_min": 0., "lat_max": 15., "lon_max": 100.}),
+                       ("space-degenerate", {"time_min": 2., "time_max": 8., "lat_min": 5., "lon_min": 7., "lat_max": 5., "lon_max": 7.})):
+        for cls_name, make in (("Data", lambda w: Data(obs.copy(), grid, window=w, silence_level=3)),
+                               ("ClimateData", lambda w: ClimateData(obs.copy(), grid, time_cycle=3, window=w, silence_level=3))):
+            w = dict(win)
+            keep = dict(win)
+            wit = {"class": cls_name, "window": label, "seed": seed}
+            try:
+                obj = make(w)
+                out["eval"] += 1
+                if w != keep or any(type(w[k]) is not type(keep[k]) for k in keep):
+                    out["fail"].append((cls_name + ".__init__/caller-window-dict-unchanged", wit, f"{keep} -> {w}"))
+                w2 = dict(win)
+                obj.set_window(w2)
+                out["eval"] += 1
+                if w2 != keep or any(type(w2[k]) is not type(keep[k]) for k in keep):
+                    out["fail"].append((cls_name + ".set_window/caller-window-dict-unchanged", wit, f"{keep} -> {w2}"))
+            except Exception as e:                                  # noqa
+                out["fail"].append((cls_name + "/caller-window-dict-unchanged", wit, f"raised {type(e).__name__}: {e}"))
+    out["cases"].append(("caller-window-dicts", True))
+    # (b) source objects of a coupled network, equal and unequal record lengths
+    try:
+        from pyunicorn.climate import CoupledTsonisClimateNetwork
+        for T2 in (T, T - 4):
+            g2 = GeoGrid(time_seq=np.arange(T2, dtype=float), lat_seq=np.linspace(-20., 20., N), lon_seq=np.linspace(10., 90., N), silence_level=3)
+            d1 = ClimateData(rng.randn(T, N), grid, time_cycle=1, silence_level=3)
+            d2 = ClimateData(rng.randn(T2, N), g2, time_cycle=1, silence_level=3)
+            before = [S.freeze(d1), S.freeze(d2), dict(d1.window()), dict(d2.window()), np.array(d1.observable()), np.array(d2.observable())]
+            try:
+                CoupledTsonisClimateNetwork(d1, d2, threshold=0.5, silence_level=3)
+            except Exception:                                       # noqa  (unequal lengths may be refused)
+                pass
+            out["eval"] += 1
+            wit = {"T1": T, "T2": T2, "seed": seed}
+            if dict(d1.window()) != before[2] or dict(d2.window()) != before[3] or \
+                    np.shape(d1.observable()) != before[4].shape or np.shape(d2.observable()) != before[5].shape or \
+                    not np.array_equal(np.array(d1.observable()), before[4]) or not np.array_equal(np.array(d2.observable()), before[5]):
+                out["fail"].append(("CoupledTsonisClimateNetwork.__init__/source-data-unchanged", wit,
+                                    f"windows {before[2]} / {before[3]} -> {dict(d1.window())} / {dict(d2.window())}"))
+        out["cases"].append(("coupled-sources", True))
+    except Exception as e:                                          # noqa
+        out["fail"].append(("CoupledTsonisClimateNetwork.__init__/source-data-unchanged", {"seed": seed}, f"raised {type(e).__name__}: {e}"))
+
+
 # --------------------------------------------------------------------------- tasks
 
 def plan_pairs(nq, tier, rng, primary):
@@ -558,6 +613,7 @@ def work(task):
                 statics(out, seed)
                 surrogates_retention(out, seed)
                 twin_lists_untouched(out, seed)
+                caller_dicts_and_sources_untouched(out, seed)
                 shared_data_chains(out, seed)
             elif kind == "replay":
                 _, name, seed, wit = task
